@@ -758,7 +758,10 @@ def shipped_handler(res, r, tier):
                         continue
 
                     def both(*a, _r=getattr(rec, name), _d=getattr(real, name), **kw):
-                        _r(*a, **kw)
+                        try:
+                            _r(*a, **kw)
+                        except Exception:   # noqa
+                            pass
                         return _d(*a, **kw)
                     setattr(rec, name, both)
                 mon = Monitor(res, conf, full)
